@@ -405,6 +405,12 @@ def run_case(spec):
         router = {"id": rid, "pos": rpos, "kw": [], "prio": 10,
                   "sites": [{"fn": "recurse", "npos": npos, "kws": []}, {"fn": "recurse", "npos": npos, "kws": [], "star": True},
                             {"fn": "call_next", "npos": npos, "kws": []}, {"fn": "call_next", "npos": npos, "kws": [], "star": True}]}
+        if not spec.get("swap"):
+            # ... and with the (uniformly named) parameters handed on by keyword: the type still travels as a type
+            names = ["a0", "a1"][:npos]
+            router["sites"] += [{"fn": "recurse", "npos": 0, "kws": names, "bykw": True},
+                                {"fn": "call_next", "npos": 0, "kws": names, "bykw": True},
+                                {"fn": "recurse", "npos": npos - 1, "kws": names[npos - 1:], "bykw": True}]
         all_methods = real_methods + [router]
     try:
         spelling = {f"{m['id']}_{p['name']}": {"union": spec.get("union_spelling", "typing")}
@@ -447,12 +453,14 @@ def run_case(spec):
                 norm = lambda k: "nomethod" if k == "rejected" else k  # noqa: E731
                 rargs = [S.build_value(["inst", "K4"], env)] + [0] * (len(args) - 1)
                 for k, site in enumerate(router["sites"]):
-                    o3 = prog.call(rargs, {}, script=[["site", k, "raw", {}]], raw_site_args=args)
+                    rkw = {n: args[["a0", "a1"].index(n)] for n in site["kws"]} if site.get("bykw") else None
+                    o3 = prog.call(rargs, {}, script=[["site", k, "raw", {}]], raw_site_args=args, raw_site_kwargs=rkw)
                     g3 = (norm(o3.kind), o3.value.mid if o3.kind == "ok" else None)
                     g1 = (norm(out.kind), out.value.mid if out.kind == "ok" else None)
-                    res.label("via:" + site["fn"] + ("*" if site.get("star") else ""))
+                    res.label("via:" + site["fn"] + ("*" if site.get("star") else "") + ("-by-keyword" if site.get("bykw") else ""))
                     if g3 != g1:
-                        res.fail(f"call {call} forwarded by {site['fn']}({'*args' if site.get('star') else 'args'}) from a "
+                        res.fail(f"call {call} forwarded by {site['fn']}({'*args' if site.get('star') else 'args'}"
+                                 f"{' by keyword ' + str(site['kws']) if site.get('bykw') else ''}) from a "
                                  f"{'method with self' if prog.is_method else 'function'} on an unrelated class: {g3} "
                                  f"({o3.detail[:120]}), direct call: {g1}; annotations "
                                  f"{[[p['ann'] for p in typed_params(m)] for m in methods]}", None)
